@@ -804,6 +804,31 @@ pub fn sched_subs_for(id: &str) -> Vec<Sub> {
             ),
             sched_sub(
                 p_sched::SchedProp {
+                    thread_choices: vec![2, 4, 8, 16],
+                    ..sp(
+                        "C05",
+                        "c05-differential-large",
+                        "large plans from the general generator (up to 24 ops, nested batches with up to 16 inner systems, up to 6 reads / 3 writes per system), free run with jitter and maximal overlap on pools of 2..16 threads, compared with the sequential result",
+                        GenCfg {
+                            max_inner_ops: 16,
+                            max_reads: 6,
+                            universe_max: 12,
+                            p_batch: 2,
+                            p_barrier: 2,
+                            tl_in_batch_access: false,
+                            ..GenCfg::default()
+                        },
+                        vec![Want::Differential],
+                        vec![Dispatch, Par],
+                        vec![2, 2, 1],
+                        p_sched::nt_differential,
+                    )
+                },
+                12_000,
+                400_000,
+            ),
+            sched_sub(
+                p_sched::SchedProp {
                     max_repeats: 1,
                     thread_choices: vec![4, 8],
                     ..sp(
@@ -903,6 +928,31 @@ pub fn sched_subs_for(id: &str) -> Vec<Sub> {
                     },
                     1_200,
                     40_000,
+                )
+            },
+            Sub {
+                max_lanes: 4,
+                ..sub(
+                    p_misc::C14 {
+                        // wide stages (more than 6 groups) that also hold groups of several systems
+                        cfg: GenCfg {
+                            max_ops: 18,
+                            universe_max: 24,
+                            max_reads: 1,
+                            max_writes: 1,
+                            p_dep: 7,
+                            max_deps: 1,
+                            p_batch: 0,
+                            p_tl: 0,
+                            p_barrier: 0,
+                            p_static: 0,
+                            ..GenCfg::default()
+                        },
+                        pairs: false,
+                        name: "c14-wide",
+                    },
+                    300,
+                    10_000,
                 )
             },
         ],
